@@ -241,6 +241,31 @@ pub fn c01(ctx: &Ctx, begin: &mut dyn FnMut(J)) -> Outcome {
         case.opts.hash_into(&mut f);
         case.hash = f.hex();
         begin(J::obj().set("opts", case.opts.to_json()).set("input", J::s("300 chromosomes s000..s299 with 1..3 values each")));
+    } else if (2..=5).contains(&ctx.case) {
+        // heavy chromosomes: each stages far more than any internal buffer (64 KiB, 256 KiB) before
+        // it can get the output file; in-memory and temp-file staging, lock-step and threaded
+        let mk = |name: &str, n: u32, seed: u32| -> (Chrom, Vec<Value>) {
+            let vals: Vec<Value> = (0..n).map(|i| Value { start: i * 3, end: i * 3 + 2, value: ((i.wrapping_mul(2654435761).wrapping_add(seed)) % 1000) as f32 / 8.0 }).collect();
+            (Chrom { name: name.into(), size: n * 3 + 5 }, vals)
+        };
+        case.input = vec![mk("chr1", 30_000, 1), mk("chr2", 45_000, 2), mk("chr3", 9_000, 3)];
+        case.opts = WOpts::default_small();
+        case.opts.items_per_slot = 1024;
+        case.opts.block_size = 256;
+        case.opts.compress = ctx.case % 2 == 0;
+        case.opts.zoom = Zoom::Auto { initial: 160, max: 3 };
+        case.opts.inmemory = ctx.case <= 3;
+        case.opts.workers = if ctx.case % 2 == 0 { 0 } else { 4 };
+        case.opts.channel_size = 100;
+        case.opts.multipass = ctx.case == 5;
+        case.extra.clear();
+        case.tags = vec!["heavy_chromosomes".into(), "multi_section".into()];
+        case.nontrivial = true;
+        let mut f = Fnv::new();
+        bw_hash(&case.input, &mut f);
+        case.opts.hash_into(&mut f);
+        case.hash = f.hex();
+        begin(J::obj().set("opts", case.opts.to_json()).set("input", J::s("chr1 30000, chr2 45000, chr3 9000 values [3i,3i+2)")));
     } else {
         begin(bw_desc(&case));
     }
